@@ -330,6 +330,41 @@ func init() {
 			vh := UF("ctx.value", SInt, c.Tid, c.Box, kt)
 			return Iface{Tid: UF("tid", SInt, vh), Box: vh}
 		},
+		// syncmapp(p): the content of the sync.Map that p points to
+		"syncmapp": func(e *Env, args []ast.Expr) Value {
+			p, ok := e.eval(args[0]).(Ptr)
+			if !ok {
+				fail("spec: syncmapp(*sync.Map)")
+			}
+			p = e.st.canon(p).(Ptr)
+			return syncMapOf(e.fr, e.st, p)
+		},
+		// selected(i): the select statement on this path took case i (-1 = default)
+		"selected": func(e *Env, args []ast.Expr) Value {
+			i := e.toTerm(e.eval(args[0]))
+			want := fmt.Sprintf("select:%d", i.I.Int64())
+			for _, t := range e.st.trace {
+				if t == want {
+					return Scalar{True}
+				}
+			}
+			return Scalar{False}
+		},
+		"lower": func(e *Env, args []ast.Expr) Value { return Scalar{strLower(e.st.norm(e.toTerm(e.eval(args[0]))))} },
+		"chancap": func(e *Env, args []ast.Expr) Value {
+			c, ok := e.eval(args[0]).(Chan)
+			if !ok {
+				fail("spec: chancap(chan)")
+			}
+			return Scalar{UF("chancap", SInt, e.st.norm(c.H))}
+		},
+		"chanlen": func(e *Env, args []ast.Expr) Value {
+			c, ok := e.eval(args[0]).(Chan)
+			if !ok {
+				fail("spec: chanlen(chan)")
+			}
+			return Scalar{e.st.chanLen(e.st.norm(c.H))}
+		},
 		"ufval_ptr": func(e *Env, args []ast.Expr) Value {
 			h := e.ufApp(args, SInt)
 			return Ptr{H: h, Elem: e.ptrElemHint(args)}
@@ -384,6 +419,16 @@ func init() {
 		"errnil":  func(e *Env, args []ast.Expr) Value { t, _ := e.st.isNilTerm(e.eval(args[0])); return Scalar{t} },
 	}
 	specHavoc = map[string]func(e *Env, args []ast.Expr){
+		"chanlen": func(e *Env, args []ast.Expr) {
+			c, ok := e.eval(args[0]).(Chan)
+			if !ok {
+				fail("spec: modifies chanlen(chan)")
+			}
+			h := e.st.norm(c.H)
+			l := Var(e.st.eng.fresh("chanlen"), SInt)
+			e.st.assume(Le(Int(0), l))
+			e.st.ghost["chanlen:"+h.String()] = Scalar{l}
+		},
 		"content": func(e *Env, args []ast.Expr) {
 			h := bufHandle(e, args[0])
 			c := Var(e.st.eng.fresh("content"), SString)
